@@ -91,16 +91,17 @@ func (h *Handler) spoofLoop(addr packet.Addr) {
 		h.arpMutex.Lock()
 		targetAddr, hunting := h.huntList[string(addr.MAC)] // membership is per MAC: the list is keyed by MAC
 		verifEmit("arp.check", lid, addr, targetAddr, hunting)
+		closed := h.closed // read under arpMutex: Close sets it under the same lock
 		h.arpMutex.Unlock()
 		verifGate("act", lid)
 
-		if !hunting || h.closed {
+		if !hunting || closed {
 			if Logger.IsInfo() {
 				Logger.Msg("hunt loop stop").Struct(addr).Int("repeat", nTimes).String("duration", time.Since(startTime).String()).Write()
 			}
 
 			// When hunt terminate normally, clear the arp table with announcement to real router mac.
-			if !h.closed {
+			if !closed {
 				// request will fix the ether src mac to host to prevent ethernet port disabling
 				if err := h.RequestRaw(addr.MAC, h.session.NICInfo.RouterAddr4, h.session.NICInfo.RouterAddr4); err != nil {
 					Logger.Msg("error send request packet").Struct(addr).Error(err).Write()
